@@ -770,7 +770,11 @@ class MainTransformer(object):
         elif ANN_IN in annotations:
             annotated_direction = ast.PARAM_DIRECTION_IN
 
-        if (annotated_direction is not None) and (annotated_direction != node.direction):
+        if (annotated_direction is not None) and (
+                annotated_direction != node.direction
+                or (isinstance(node, ast.Parameter) and caller_allocates != node.caller_allocates)):
+            # The direction may already be the annotated one: an earlier
+            # (array length=) makes its length parameter follow the array
             node.direction = annotated_direction
             node.caller_allocates = caller_allocates
             # Also reset the transfer default if we're toggling direction
